@@ -62,6 +62,14 @@ EU_C10_DocsE == SetToSeq({ LET e == <<<<EU_KA, x>>, <<EU_KB, y>>, <<EU_KC, z>>>>
                            IN SD("dict", NoVal, <<e[pi[1]], e[pi[2]], e[pi[3]]>>)
                            : x \in EU_EX, y \in EU_EY, z \in EU_EZ, pi \in EU_Perm3 })
 
+\* a call whose target builds an independent config of its own while this one is being evaluated (vmod.recbuild), between a
+\* producer and its later consumers, in every key order
+EU_NX == {EU_XRef(<<EU_KA>>), EU_Call(<<<<EU_KA, EU_XRef(<<EU_KA>>)>>>>),
+          SD("list", NoVal, <<<<IKey(0), EU_XRef(<<EU_KA>>)>>, <<IKey(1), EU_XRef(<<EU_KB>>)>>>>), EU_EvalN("a")}
+EU_C10_DocsN == SetToSeq({ LET e == <<<<EU_KA, x>>, <<EU_KB, EU_CallF("vmod.recbuild")>>, <<EU_KC, z>>>>
+                           IN SD("dict", NoVal, <<e[pi[1]], e[pi[2]], e[pi[3]]>>)
+                           : x \in {EU_Call(<<>>), EU_CallF("vmod.reclist")}, z \in EU_NX, pi \in EU_Perm3 })
+
 \* later stages overwriting / deleting any subset of the dynamic nodes
 EU_DelKey == WithTag(SD("scalar", Atom("n", ""), <<>>), "del")
 EU_Over == {EU_L("2"), EU_DelKey, EU_Call(<<>>), SD("dict", NoVal, <<<<EU_KA, EU_L("2")>>>>), SD("list", NoVal, <<>>)}
